@@ -76,8 +76,8 @@ EQ_SEM = {
 def covers(method, state, hamkind):
     """the *own* precondition of each update method, as a predicate on (state kind, Hamiltonian kind):
     this is the `supports(m, ...)` of DESIGN B.6; the update-method contracts below require exactly this"""
-    if method == M_EXPM:       # expm_multiply(c*H, v) acts from the left only
-        return state == "ket" and hamkind in MATRIX
+    if method == M_EXPM:       # expm_multiply(c*H, v) acts from the left; a density operator gets a second, adjoint pass
+        return state in ("ket", "dop") and hamkind in MATRIX
     if method == M_SKET:       # pe0 is a vector in the eigenbasis
         return state == "ket" and hamkind in MATRIX + ("pair",)
     if method == M_SDOP:       # pe0 is an operator in the eigenbasis, evolved two-sidedly
@@ -213,7 +213,20 @@ class EvoContract(Contract):
             x = args[0]
             return (Q("evals", uf("eigvals", x.z)), Q("evecs", uf("eigvecs", x.z)))
         if name == "dag":
-            return Q("arr", uf("dag", args[0].z))
+            x = args[0]
+            z = x.z
+
+            def app(t, nm):
+                return z3.is_app(t) and t.decl().name() == nm
+
+            # [trusted algebraic identity of the left action]  (U (U rho)^dag)^dag = U rho U^dag : the two-sided evolution of
+            # a density operator written with two left actions (method 'expm')
+            if x.kind == "dop" and app(z, "Uleft") and app(z.arg(1), "dag") and app(z.arg(1).arg(0), "Uleft") \
+                    and z.arg(0).eq(z.arg(1).arg(0).arg(0)):
+                return Q("dop", Uconj(z.arg(0), z.arg(1).arg(0).arg(1)), d=x.info.get("d"))
+            if x.kind == "dop":  # the adjoint of a d x d operator is a d x d operator
+                return Q("dop", uf("dag", z), d=x.info.get("d"))
+            return Q("arr", uf("dag", z))
         if name == "dot":
             return Q("arr", uf("dot", args[0].z, args[1].z))
         if name == "explt":
@@ -454,7 +467,7 @@ def spectral_instance(cx, ref, tau):
 
 class PropBase(EvoContract):
     floor = 1
-    UMS = ((M_EXPM, "ket"), (M_SKET, "ket"), (M_SDOP, "dop"), (M_INT, "ket"), (M_INT, "dop"))
+    UMS = ((M_EXPM, "ket"), (M_EXPM, "dop"), (M_SKET, "ket"), (M_SDOP, "dop"), (M_INT, "ket"), (M_INT, "dop"))
 
     def cases(self):
         return [NS(name=f"installed={um},state={s}", um=um, state=s) for um, s in self.UMS]
@@ -610,7 +623,7 @@ class UpdateExpmKet(UpdateBase):
 
     target = f"{EVO}.{M_EXPM}"
     um = M_EXPM
-    states = ("ket",)
+    states = ("ket", "dop")
 
 
 @register
@@ -656,7 +669,7 @@ class UpdateIntegrate(UpdateBase):
 # ======================================================================================================
 
 
-ALL_UMS = ((M_EXPM, "ket"), (M_SKET, "ket"), (M_SDOP, "dop"), (M_INT, "ket"), (M_INT, "dop"))
+ALL_UMS = ((M_EXPM, "ket"), (M_EXPM, "dop"), (M_SKET, "ket"), (M_SDOP, "dop"), (M_INT, "ket"), (M_INT, "dop"))
 
 
 def um_pre(cx, ref):
